@@ -159,6 +159,45 @@ def loneSurrogates : S → S
     if isHi c && isLo d then loneSurrogates rest
     else (if isHi c || isLo c then [c] else []) ++ loneSurrogates (d :: rest)
 
+/-- SPEC: code-point segmentation of a unit list (ECMA-262 CodePointAt / StringToCodePoints): a high surrogate
+directly followed by a low surrogate is one code point, every other unit is a code point by itself. -/
+def pairCP (c d : UInt16) : Nat := 0x10000 + (c.toNat - 0xD800) * 1024 + (d.toNat - 0xDC00)
+
+def codePoints : S → List Nat
+  | [] => []
+  | [c] => [c.toNat]
+  | c :: d :: rest =>
+    if isHi c && isLo d then pairCP c d :: codePoints rest else c.toNat :: codePoints (d :: rest)
+
+/-- MECHANISM: lenientUtf16Decoder.ReadRune (string_unicode.go:81) iterated until EOF.  `prev` is the pushed-back
+unit (`prev`, `prevSet`): a unit read while looking for the second half of a pair and found not to be a low
+surrogate.  It is NOT returned as it is: the next call starts from it and looks again for a pair. -/
+def lenientF : Nat → Option UInt16 → S → List Nat
+  | 0, _, _ => []
+  | fuel + 1, prev, input =>
+    -- `if rr.prevSet { c = rr.prev } else { c, err = readChar() }`
+    match (match prev with
+           | some c => some (c, input)
+           | none => match input with
+             | [] => none
+             | c :: rest => some (c, rest)) with
+    | none => []                                      -- io.EOF
+    | some (c, rest) =>
+      if isHi c then
+        match rest with
+        | [] => [c.toNat]                             -- err1 == io.EOF: r = rune(c)
+        | d :: rest' =>
+          if isLo d then pairCP c d :: lenientF fuel none rest'       -- utf16.DecodeRune, size 2
+          else c.toNat :: lenientF fuel (some d) rest'                 -- push back `second`
+      else c.toNat :: lenientF fuel none rest
+
+/-- the decoder run to exhaustion on a string -/
+def lenientDecode (s : S) : List Nat := lenientF (s.length + 1) none s
+
+def hex6 (n : Nat) : String :=
+  String.ofList ([n / 1048576 % 16, n / 65536 % 16, n / 4096 % 16, n / 256 % 16, n / 16 % 16, n % 16].map
+    (fun d => Char.ofNat (if d < 10 then 48 + d else 87 + d)))
+
 /-! ### RPN evaluator -/
 
 def hexVal? (c : Char) : Option Nat :=
